@@ -163,6 +163,7 @@ def h_gates(ctx, cfg):
     ctx.prove("gates_found", z3.BoolVal(len(gates) >= 2), detail=repr([(m.__name__, k) for m, k in gates]))
 
     def run():
+        nonlocal J, N
         out = []
         for name, v in sorted(_instances().items()):
             j = J.value_to_json(v)
@@ -190,6 +191,25 @@ def h_gates(ctx, cfg):
                 m.sys = FakeSys(other)
             flipped = run()
             ctx.prove("same_results_with_gates_flipped_and_version_%d.%d" % other[:2], z3.BoolVal(flipped == base),
+                      detail=repr([a[0] for a, b in zip(base, flipped) if a != b][:3]))
+        # gates read at *import* time: re-import the codec and normalize while the gates of the other modules are flipped
+        closure = [sys.modules[n] for n in ("code_data.dataclass_hide_default", "code_data._json_data", "code_data._normalize") if n in sys.modules]
+        try:
+            for m in closure:
+                importlib.reload(m)
+            J2, N2 = sys.modules["code_data._json_data"], sys.modules["code_data._normalize"]
+            J, N = J2, N2
+            flipped = run()
+        finally:
+            for m, k, v in saved:
+                if hasattr(m, k):
+                    setattr(m, k, v)
+            for m in closure:
+                importlib.reload(m)
+            J, N = sys.modules["code_data._json_data"], sys.modules["code_data._normalize"]
+        if True:
+            other = (0, 0)
+            ctx.prove("same_results_when_imported_under_flipped_gates", z3.BoolVal(flipped == base),
                       detail=repr([a[0] for a, b in zip(base, flipped) if a != b][:3]))
     finally:
         for m, k, v in saved:
